@@ -52,7 +52,7 @@ CHECKS.update({
             "The verdict is a runtime observation (recovered panic, 10 s watchdog) on the real code; the TLA+ model supplies (i) the design-level invariant that whenever the decoders' "
             "length guards accept, every bit read lies inside the frame, for every payload length 1..1023 and every mask shape, and (ii) the exhaustive list of payload lengths at which a guard flips, "
             "per (family, nSat, nSig), which the driver concretises into CRC-valid frames with zero/one/random bits, illegal timestamps and all 14 MSM types and pushes through GetMessage, Analyse, String "
-            "(both log levels), Copy, the four decoders and HandleMessages.",
+            "(both log levels), Copy, the four decoders and HandleMessages.  The same driver is re-run as a GOARCH=386 build and as a static binary in an empty root directory; a trace that differs from the ordinary one is validated as well.",
             "TLA+ proves nothing about Go memory safety; the level is model-guided exploration.  Trusted: recover() and the watchdog as monitors.", "DESIGN.md 6/C07"),
 })
 
@@ -91,7 +91,7 @@ CHECKS.update({
     "C08": ("model_checking", "TLA+ case analysis and exact scaled-integer arithmetic (Ranges.tla) checked by TLC on traces of real decodes; real-number step checked in exact rationals with constants exported from the spec",
             "TLC decides, per decoded signal cell of real MSM4/MSM7 decodes, the aggregate scaled integers (range unit 2^-29 ms, phase 2^-31 ms, rate 10^-4 m/s), the invalid-marker case analysis "
             "(invalid rough value => zero and 'invalid' in the display; invalid fine value => rough value alone) and thereby MSM4/MSM7 equivalence.  TLC has no reals: the four floating-point results "
-            "and the wavelength are compared by the harness with exact rational arithmetic (8 ulp) using only the constants Ranges!Export prints (c, 2^-29, 2^-31, 10^-4, the frequency table).",
+            "and the wavelength are compared by the harness with exact rational arithmetic (8 ulp) using only the constants Ranges!Export prints (c, 2^-29, 2^-31, 10^-4, the frequency table).  The same driver is re-run as a GOARCH=386 build and as a static binary in an empty root directory; a trace that differs from the ordinary one is validated as well.",
             "Split stated above: the floating-point closeness is outside TLA+ (no reals, 32-bit integers).  Scope as in the property: non-negative values, wavelength defined; frequency table = the documented one.",
             "DESIGN.md 6/C08"),
     "C15": ("model_checking", "TLC trace validation against the 'stateless' L0 spec (text and decoded fields are a function of frame and log level, learnt at first sight) + Go race detector on the same runs",
